@@ -153,6 +153,12 @@ func Bytes(data any, args ...any) []byte {
 	if wr == nil {
 		wr, _ = writerPool.Get().(*Writer)
 		defer writerPool.Put(wr)
+		// The pooled Writer is reused by other callers so the buffer must be
+		// copied before returning.
+		b := wr.MustSEN(data)
+		out := make([]byte, len(b))
+		copy(out, b)
+		return out
 	}
 	return wr.MustSEN(data)
 }
